@@ -217,6 +217,10 @@ define {
   RECURSIVE IsActiveM(_, _, _)
   IsActiveM(ii, mm, sx) == running[ii][mm] /\ \E rr \in 1..NReg(mm) : LET st == active[ii][mm][rr] IN
         st = sx \/ (IsSub(mm, st) /\ IsActiveM(ii, st, sx))
+  \* backmp11 visit(visitor) (active states, recursive): per region the active state, then - if it is a submachine - its active states
+  RECURSIVE VisitSeq(_, _, _)
+  VisitSeq(ii, mm, rr) == IF ~running[ii][mm] \/ rr > NReg(mm) THEN <<>>
+        ELSE LET st == active[ii][mm][rr] IN <<st>> \o (IF IsSub(mm, st) THEN VisitSeq(ii, st, 1) ELSE <<>>) \o VisitSeq(ii, mm, rr + 1)
   IsaVec(ii) == [k \in 1..Len(Def.allstates) |-> IsActiveM(ii, Def.root, Def.allstates[k])]
   FlagVec(ii, mm) == [k \in 1..Len(Def.flags) |-> FlagOr(ii, mm, Def.flags[k])]
   UseHist(mm, et) == HistKind(mm) = "always" \/ (HistKind(mm) = "shallow" /\ et \in HistEvents(mm))
@@ -801,6 +805,7 @@ M1:    if (Mode = "trace" /\ ~wasreset) {
                          /\ \A mm \in ActiveTree(lastcall.i, Def.root) : CurLine.st[mm] = Ids(mm, active[lastcall.i][mm])
                          /\ CurLine.fl = FlagVec(lastcall.i, Def.root)
                          /\ (CurLine.isa = <<>> \/ CurLine.isa = IsaVec(lastcall.i))
+                         /\ (IsB \/ CurLine.vis = VisitSeq(lastcall.i, Def.root, 1))
                          /\ \A mm \in ActiveTree(lastcall.i, Def.root) :
                                CurLine.dt[mm] = <<encnt[lastcall.i][OwnKey(mm)]>> \o [kk \in 1..Len(MD(mm).dorder) |-> encnt[lastcall.i][<<mm, MD(mm).dorder[kk]>>]]
                          /\ \A mm \in ActiveTree(lastcall.i, Def.root) :
